@@ -95,8 +95,10 @@ class JsonRecordPacker:
                 del obj["_recorddescriptor"]
                 del obj["_type"]
                 for field_type, field_name in record_descriptor.get_field_tuples():
-                    if field_type == "bytes":
+                    if field_type == "bytes" and obj.get(field_name) is not None:
                         obj[field_name] = base64.b64decode(obj[field_name])
+                    elif field_type == "bytes[]" and obj.get(field_name) is not None:
+                        obj[field_name] = [base64.b64decode(value) for value in obj[field_name]]
                 result = record_descriptor.recordType(**obj)
                 return result
             if _type == "recorddescriptor":
